@@ -1,12 +1,14 @@
--- Root of the `Grenad` library: executable model (import-free), specification, proofs, properties.
+-- Root of the `Grenad` library: the executable model. Proof and property modules are built
+-- one by one (`lake build Grenad.Props.Cxx`): independent proof files may reuse lemma names.
+import Grenad.Model.Abstract
 import Grenad.Model.Basic
-import Grenad.Model.Varint
-import Grenad.Model.Meta
 import Grenad.Model.Block
-import Grenad.Model.Writer
-import Grenad.Model.Reader
-import Grenad.Model.Iter
-import Grenad.Model.Spec
-import Grenad.Model.Merger
-import Grenad.Model.Sorter
 import Grenad.Model.IO
+import Grenad.Model.Iter
+import Grenad.Model.Merger
+import Grenad.Model.Meta
+import Grenad.Model.Reader
+import Grenad.Model.Sorter
+import Grenad.Model.Spec
+import Grenad.Model.Varint
+import Grenad.Model.Writer
